@@ -1248,19 +1248,26 @@ def verdict(ctx, results, stage_fail, coq_ok, coq_probs):
     mism = [r for r in results if r["verdict"] == "mismatch"]
     groups = {}
     for r in viol:
-        groups.setdefault((r["kind"], r["rule"], r.get("route", "")), []).append(r)
+        groups.setdefault((r["kind"], r["rule"]), []).append(r)
     order = {"rest": 0, "grpc": 1, "tls": 2, "funcs": 3}
-    keys = sorted(groups, key=lambda k: (order.get(k[0], 9), k[1], k[2]))
+    keys = sorted(groups, key=lambda k: (order.get(k[0], 9), k[1]))
+    main = set("%s %s" % r for r in MAIN_ROUTES)
     extra = "" if coq_ok else "   [the Coq side is broken as well: %s]" % ("; ".join(coq_probs)[:200] or "see evidence")
     for k in keys[:10]:
-        rs = sorted(groups[k], key=lambda r: r.get("size", 0))   # the smallest failing input of the group
+        # the representative: a registered route before an unknown path, then the smallest input
+        rs = sorted(groups[k], key=lambda r: (r["kind"] == "rest" and r.get("route") not in main, r.get("size", 0)))
         r = rs[0]
+        where = {}
+        for x in rs:
+            where[x.get("route", "")] = where.get(x.get("route", ""), 0) + 1
         fid = next((f.get("id") for f in ctx.known_findings if f.get("kind") == "known" and f.get("signature") == "c16:" + r["rule"]), None)
         if fid:
             ctx.known_finding(fid, r["text"][:300])
             continue
-        nm = re.sub(r"[^A-Za-z0-9_.-]+", "_", "violation_%s_%s_%s" % (k[0], k[1], k[2]))[:120] + ".json"
-        ctx.violation(replay_obj(ctx, r, len(rs) - 1), r["text"] + extra, name=nm)
+        nm = re.sub(r"[^A-Za-z0-9_.-]+", "_", "violation_%s_%s" % (k[0], k[1]))[:120] + ".json"
+        ro = replay_obj(ctx, r, len(rs) - 1)
+        ro["failing_cases_per_route"] = where
+        ctx.violation(ro, r["text"] + ("   [%d more failing cases of this kind, routes/methods: %s]" % (len(rs) - 1, ", ".join(sorted(where))[:200]) if len(rs) > 1 else "") + extra, name=nm)
     if len(keys) > 10:
         ctx.note("%d more groups of failing inputs not written out" % (len(keys) - 10))
     if viol:
@@ -1380,3 +1387,109 @@ def fill_coverage(ctx, results, S):
                 pick.append({"kind": "tls", "config": cfg_name(c), "observed": short_obs("tls", r["obs"]), "model": r.get("model"), "verdict": r["verdict"]})
                 break
     cov["samples"] = pick or [{"note": "no observation available", "stage_failures": S["stage_fail"][:3]}]
+
+
+# -------------------------------------------------------------------------------------------------------------- replay
+
+def do_replay(ctx, exe, model, blog):
+    cov = ctx.coverage
+    cov["rule"] = "replay of one recorded request / configuration"
+    cov["evaluations"] = 0
+    cov["distinct_nontrivial"] = 0
+    try:
+        r = json.loads(Path(ctx.replay).read_text())
+    except Exception as ex:  # noqa
+        print("cannot read replay file: %r" % (ex,))
+        ctx.violation({"broken": "replay", "file": str(ctx.replay)}, "replay file unreadable", name="replay_unreadable.json", no_failing_input=True)
+        return
+    if r.get("first_differences"):      # a broken-correspondence file: replay its first difference
+        r = r["first_differences"][0]
+    kind = r.get("kind")
+    print("replaying a %s case on %s" % (kind, vcheck.REPO))
+    print("recorded: " + str(r.get("what")))
+    print("expected: " + str(r.get("expected")))
+    if exe is None:
+        print("the tree does not compile against the harness:\n" + blog[-1500:])
+        ctx.violation({"broken": "build", "compiler_output": blog[-4000:]}, "replay could not run: the tree does not compile", name="replay_failed.json", no_failing_input=True)
+        return
+    out = []
+    try:
+        if kind == "rest" and r.get("request"):
+            q = r["request"]
+            pw = bytes.fromhex(q["password_hex"])
+            c = {"id": 1, "method": q["method"], "path": q["path"], "shape": q.get("shape", "replay"), "headers": [(n, bytes.fromhex(v)) for (n, v) in q["headers"]]}
+            g = [{"password": pw, "cases": [c]}]
+            obs, msgs, crashes, log = run_groups(ctx, exe, "rest", g, enc_rest_groups, "replay_rest")
+            fatal_to_results("rest", msgs, out)
+            m_ok, m_car = model_rest(model, g).get(1, (None, None))
+            print("request:  %s %s  %s   (configured password %s)" % (c["method"], c["path"], [[n, show(v, 200)] for (n, v) in c["headers"]], show(pw, 80)))
+            print("model:    rest_password_ok = %s, rest_carries = %s" % (m_ok, m_car))
+            print("observed: " + json.dumps(short_obs("rest", obs.get(1))))
+            for (v, rule, text) in judge_rest(pw, c, obs.get(1), m_ok, m_car):
+                out.append({"kind": "rest", "verdict": v, "rule": rule, "text": text, "pw": pw, "case": c, "obs": obs.get(1), "model": {"rest_password_ok": m_ok, "rest_carries": m_car}})
+            for (_, lg) in crashes:
+                out.append({"kind": "rest", "verdict": "violation", "rule": "server-died", "text": "the process died on this request: " + lg[-300:], "pw": pw, "case": c, "obs": {"log": lg}})
+        elif kind == "grpc" and r.get("request"):
+            q = r["request"]
+            pw = bytes.fromhex(q["password_hex"])
+            c = {"id": 1, "method": q["method"], "shape": q.get("shape", "replay"), "md": [(k, bytes.fromhex(v)) for (k, v) in q["md"]]}
+            g = [{"password": pw, "cases": [c]}]
+            obs, msgs, crashes, log = run_groups(ctx, exe, "grpc", g, enc_grpc_groups, "replay_grpc")
+            fatal_to_results("grpc", msgs, out)
+            m = model_grpc(model, g).get(1)
+            print("request:  %s  metadata %s   (configured password %s)" % (c["method"], [[k, show(v, 200)] for (k, v) in c["md"]], show(pw, 80)))
+            print("model:    grpc_gate = %s" % m)
+            print("observed: " + json.dumps(obs.get(1)))
+            for (v, rule, text) in judge_grpc(pw, c, obs.get(1), m):
+                out.append({"kind": "grpc", "verdict": v, "rule": rule, "text": text, "pw": pw, "case": c, "obs": obs.get(1), "model": {"grpc_gate": m}})
+            for (_, lg) in crashes:
+                out.append({"kind": "grpc", "verdict": "violation", "rule": "server-died", "text": "the process died on this call: " + lg[-300:], "pw": pw, "case": c, "obs": {"log": lg}})
+        elif kind == "tls" and r.get("config"):
+            q = r["config"]
+            cfg = {"cert": q.get("cert", ""), "key": q.get("key", ""), "verify": bool(q.get("verify")), "ca": q.get("ca", ""),
+                   "password": q.get("password_text", "").encode("latin-1"), "rest": bool(q.get("rest"))}
+            if cfg["cert"] not in CERT_KINDS or cfg["key"] not in KEY_KINDS or cfg["ca"] not in CA_KINDS:
+                raise ValueError("unknown file kind in the configuration")
+            P = tls_paths(ctx)
+            o = run_tls_one(ctx, exe, P, cfg, 0)
+            a = model.ask(tls_model_lines(P, cfg, o))
+            m_dec, m_start = (a[0], a[1]) if a else (None, None)
+            print("config:   " + cfg_name(cfg))
+            print("model:    tls_decision = %s ; startup = %s" % (m_dec, m_start))
+            print("observed: " + json.dumps(short_obs("tls", o)))
+            for (v, rule, text) in judge_tls(cfg, o, m_dec, m_start, model):
+                out.append({"kind": "tls", "verdict": v, "rule": rule, "text": text, "pw": cfg["password"], "case": cfg, "obs": o, "model": {"tls_decision": m_dec, "startup": m_start}})
+        elif kind == "funcs" and isinstance(r.get("input"), dict) and r["input"].get("input_hex") is not None:
+            s = bytes.fromhex(r["input"]["input_hex"])
+            fr = stage_funcs(ctx, exe, model, [s])
+            print("input:    " + show(s, 200))
+            print("result:   " + json.dumps({k: fr[k] for k in ("ran", "b64_mismatches", "split_mismatches")}))
+            for mm in fr["b64_mismatches"] + fr["split_mismatches"]:
+                out.append({"kind": "funcs", "verdict": "mismatch", "rule": "library-function-vs-model", "text": json.dumps(mm)[:300], "pw": b"", "case": mm, "obs": mm})
+            if not fr["ran"]:
+                out.append({"kind": "funcs", "verdict": "skipped", "rule": "not-run", "text": fr.get("log", "")})
+        else:
+            print("this replay file names no request or configuration (%s); nothing to re-run" % (r.get("broken") or kind))
+            ctx.violation({"broken": "replay", "file": str(ctx.replay)}, "the replay file holds no input to re-run", name="replay_failed.json", no_failing_input=True)
+            return
+    except Exception as ex:  # noqa
+        print("replay failed: %r" % (ex,))
+        ctx.violation({"broken": "replay", "file": str(ctx.replay), "error": repr(ex)}, "replay could not run", name="replay_failed.json", no_failing_input=True)
+        return
+    cov["evaluations"] = len(out)
+    cov["distinct_nontrivial"] = 1 if out else 0
+    cov["samples"] = [r.get("request") or r.get("config") or r.get("input")]
+    for x in out:
+        print("verdict:  %s (%s) %s" % (x["verdict"], x["rule"], x["text"]))
+    bad = [x for x in out if x["verdict"] == "violation"]
+    mis = [x for x in out if x["verdict"] == "mismatch"]
+    for x in bad[:3]:
+        ctx.violation(replay_obj(ctx, x, 0), x["text"], name="replayed_%s_%s.json" % (x["kind"], re.sub(r"[^A-Za-z0-9_-]", "_", x["rule"])))
+    if not bad and mis:
+        ctx.violation({"broken": "correspondence", "first_differences": [replay_obj(ctx, x, 0) for x in mis[:3]]}, mis[0]["text"], name="replayed_mismatch.json", no_failing_input=True)
+    if not out or all(x["verdict"] == "skipped" for x in out):
+        ctx.violation({"broken": "replay"}, "the replayed case produced no observation", name="replay_failed.json", no_failing_input=True)
+
+
+if __name__ == "__main__":
+    print(__doc__)
